@@ -211,6 +211,9 @@ class G:
         if small:
             a = r.choice([0, 1, 1, 1, 2, 3, -1])
             b = a + r.choice([0, 1, 2, 3, 4, -1, 5])
+            if r.random() < 0.03:           # ranges ending at INT64_MAX (finding F45, repaired: regression coverage)
+                b = I64MAX
+                a = b - r.choice([0, 1, 2])
             lo, hi = self.lit(a), self.lit(b)
         else:
             lo = self.gen_int(d, "offset", s)
